@@ -286,6 +286,13 @@ func configure(g *gen) {
 		Prologue: []string{"let mut s : σ := s0"}, RetExtra: []string{"s"}, RetExtraT: []string{"σ"},
 		Types: map[string]T{"rux.Params": {"opaque", "Option GoRt.KV"}},
 		Exts: []Ext{{Callee: "$.cachedRoutes.Set", Stmts: []string{"s := cacheSet s %1 %2"}}}})
+	// extends.go: the constructor and the setters of BuildRequestURL (each returns the builder itself)
+	bruT := map[string]T{"rux.M": kvT, "url.Values": kvT, "any": tStr}
+	add(FnSpec{Func: "NewBuildRequestURL", Lean: "NewBRU", UseStructs: []string{"BuildRequestURL"}, Types: bruT,
+		Exts: []Ext{{Callee: "make(url.Values)", Value: "([] : List (Bytes × Bytes))", T: kvT}, {Callee: "make(M)", Value: "([] : List (Bytes × Bytes))", T: kvT}}})
+	for _, n := range []string{"Queries", "Params", "Scheme", "Host", "Path"} {
+		add(FnSpec{Recv: "BuildRequestURL", Func: n, Lean: "BRU." + n, UseStructs: []string{"BuildRequestURL"}, Types: bruT})
+	}
 	// extends.go: BuildRequestURL.Build — arguments with a brace in the key are path parameters, the others query
 	// parameters; every `{…}` of the path (found by `varRegex`: parameter `findAll`) is replaced in ONE pass
 	// (`strings.NewReplacer`: parameter `replacer`) by the parameter stored under `{name}` (the regex of `{name:regex}`
@@ -303,6 +310,39 @@ func configure(g *gen) {
 			{Callee: "varRegex.FindAllString", Value: "(findAll %1)", T: tStrList},
 			{Callee: "strings.NewReplacer(oldNews...).Replace", Value: "(replacer oldNews %1)", T: tStr},
 		}})
+	// route.go `Route.ToURL`: the arguments of BuildURL — nothing, ONE builder or ONE map, or key/value pairs — become the
+	// builder and the parameter map handed to `Build`.  An argument is `GoRt.UArg` (a builder, a map, or any other value;
+	// `strOf` is `goutil.String`)
+	add(FnSpec{Recv: "Route", Func: "ToURL", Lean: "Route.ToURL", UseStructs: []string{"Route", "BuildRequestURL", "URL"},
+		Extra: []string{"(ordKV : List (Bytes × Bytes) → List (Bytes × Bytes))", "(encode : List (Bytes × Bytes) → Bytes)",
+			"(findAll : Bytes → List Bytes)", "(replacer : List Bytes → Bytes → Bytes)", "(strOf : GoRt.UArg BRU → Bytes)"},
+		Types: map[string]T{"rux.M": kvT, "url.Values": kvT, "any": {"opaque", "GoRt.UArg BRU"}, "[]any": {"opaque", "List (GoRt.UArg BRU)"}},
+		TypeCases: map[string]TypeCase{"*BuildRequestURL": {Ctor: ".builder", T: T{"struct", "BRU"}, Bind: "tsB"}, "M": {Ctor: ".m", T: kvT, Bind: "tsM"}},
+		Exts: []Ext{
+			{Callee: "buildArgs[0].(*BuildRequestURL)", Value: "tsB", T: T{"struct", "BRU"}},
+			{Callee: "buildArgs[0].(M)", Value: "tsM", T: kvT},
+			{Callee: "make(M)", Value: "([] : List (Bytes × Bytes))", T: kvT},
+			{Callee: "withParams[]=", Stmts: []string{"withParams := GoRt.kvSet withParams %1 (strOf %2)"}},
+			{Callee: "goutil.String", Value: "(strOf %1)", T: tStr},
+		}})
+	// router.go `GetRoute` / route.go `BuildURL`: the name index is the list `idx` of (name, route) pairs, newest first
+	// (what `NamedTo` and `appendRoute` write); an unknown name panics in BuildURL
+	add(FnSpec{Recv: "Router", Func: "GetRoute", Lean: "Router.GetRoute", NoRecv: true, UseStructs: []string{"Route"},
+		Extra: []string{"(idx : List (Bytes × Route))"},
+		Types: map[string]T{"*rux.Route": {"opaque", "Option Route"}},
+		Exts:  []Ext{{Callee: "$.namedRoutes[]", Value: "((idx.find? (fun x => x.1 == %1)).map (·.2))", T: T{"opaque", "Option Route"}}}})
+	for _, n := range []string{"BuildURL", "BuildRequestURL"} {
+		add(FnSpec{Recv: "Router", Func: n, Lean: "Router." + n, NoRecv: true, UseStructs: []string{"Route", "BuildRequestURL", "URL"},
+			Extra: []string{"(idx : List (Bytes × Route))", "(ordKV : List (Bytes × Bytes) → List (Bytes × Bytes))", "(encode : List (Bytes × Bytes) → Bytes)",
+				"(findAll : Bytes → List Bytes)", "(replacer : List Bytes → Bytes → Bytes)", "(strOf : GoRt.UArg BRU → Bytes)", "(fuel : Nat)"},
+			Types: map[string]T{"rux.M": kvT, "url.Values": kvT, "any": {"opaque", "GoRt.UArg BRU"}, "[]any": {"opaque", "List (GoRt.UArg BRU)"}, "*rux.Route": {"opaque", "Option Route"},
+				"*url.URL": {"opaque", "Option URL"}}, // nil = the argument loop of ToURL ran out of fuel (never with enough fuel)
+			Exts: []Ext{
+				{Callee: "$.GetRoute", Value: "(Gen.Router.GetRoute %1 idx)", T: T{"opaque", "Option Route"}},
+				{Callee: "route.ToURL", Stmts: []string{"let %t ← (match route with | some rt => Gen.Route.ToURL rt %1 ordKV encode findAll replacer strOf fuel | none => throw Panic.nil)"}, Value: "%t", T: T{"opaque", "Option URL"}, MayPanic: true},
+				{Callee: "$.BuildURL", Stmts: []string{"let %t ← Gen.Router.BuildURL %1 %2 idx ordKV encode findAll replacer strOf fuel"}, Value: "%t", T: T{"opaque", "Option URL"}, MayPanic: true},
+			}})
+	}
 	// route_cache.go
 	elem := T{"opaque", "Option Nat"} // *list.Element / *cacheNode: nil or the identity of a list element
 	crExts := []Ext{
@@ -606,7 +646,7 @@ func configure(g *gen) {
 		Extra:    []string{"(wans : GoRt.HW → Bool)", "(marshal : GoRt.AnyV → Bytes × Bool)"},
 		RetExtra: []string{"w"}, RetExtraT: []string{"GoRt.HW"},
 		Types:     map[string]T{"http.ResponseWriter": hw, "http.Header": {"opaque", "List (Bytes × Bytes)"}, "any": {"opaque", "GoRt.AnyV"}},
-		TypeCases: map[string]TypeCase{"string": {".str", tStr}, "[]byte": {".bytes", tStr}},
+		TypeCases: map[string]TypeCase{"string": {Ctor: ".str", T: tStr}, "[]byte": {Ctor: ".bytes", T: tStr}},
 		Exts: append([]Ext{
 			{Callee: "json.Marshal", Values: []string{"(marshal %1).1", "(marshal %1).2"}, Ts: []T{tStr, {"opaque", "Bool"}}},
 			{Callee: "Text", Stmts: []string{"let %t := Gen.renderText %1 %2 wans", "w := %t.1"}, Value: "%t.2", T: T{"opaque", "Bool"}},
